@@ -265,11 +265,17 @@ func verifStubStat2(f *os.File) (os.FileInfo, error) {
 }
 
 type verifRec2 struct {
-	calls map[pipeline.SourceID][]verifCall
+	calls  map[pipeline.SourceID][]verifCall
+	savedS map[pipeline.SourceID]int64 // per source: the saved offset of stream "s" (-1: none)
 }
 
 func (r *verifRec2) In(id pipeline.SourceID, name string, off pipeline.Offsets, data []byte, isNew bool, _ metadata.MetaData) uint64 {
 	r.calls[id] = append(r.calls[id], verifCall{pipeline.VerifOffsetsCurrent(off), append([]byte(nil), data...)})
+	if r.savedS != nil {
+		// the saved per-stream offsets the pipeline is given with a line decide whether the line counts as
+		// already processed: they must be the ones of the line's own file
+		vf.Assert(off.ByStream("s") == r.savedS[id], "line-comes-with-its-own-files-saved-stream-offsets")
+	}
 	return uint64(len(r.calls[id]))
 }
 func (r *verifRec2) IncReadOps()                           {}
@@ -293,6 +299,19 @@ func VerifH_C06_twoJobs() {
 	jb := &Job{file: fb, sourceID: 2, filename: "b", mu: &sync.Mutex{}, isVirgin: true}
 	jp.jobs[1], jp.jobs[2] = ja, jb
 	rec := &verifRec2{calls: map[pipeline.SourceID][]verifCall{}}
+	if vf.Param("saved", 1) == 1 {
+		// either file may or may not have a saved offset for stream "s" (offsets beyond the data: nothing is skipped by the worker itself)
+		rec.savedS = map[pipeline.SourceID]int64{1: -1, 2: -1}
+		if vf.Choose("a-has-saved-offset", 2) == 1 {
+			ja.offsets.Set("s", 0)
+			rec.savedS[1] = 0
+		}
+		if vf.Choose("b-has-saved-offset", 2) == 1 {
+			jb.offsets.Set("s", 0)
+			jb.offsets.Set("t", 0)
+			rec.savedS[2] = 0
+		}
+	}
 	w := &worker{}
 	done := make(chan struct{})
 	go func() {
